@@ -196,6 +196,16 @@ func (ex *Exec) intrinsic(th *Thread, caller *frame, fn *ssa.Function, args []Va
 			panic(abortPath{"unknown parameter " + args[0].(string)})
 		}
 		return uint64(int64(n))
+	case "vOvfAdd", "vOvfSub", "vOvfMul":
+		op := map[string]TOp{"vOvfAdd": TAdd, "vOvfSub": TSub, "vOvfMul": TMul}[name]
+		x := ex.ts.Sext(ex.toTerm(args[0], 64), 64)
+		y := ex.ts.Sext(ex.toTerm(args[1], 64), 64)
+		r := ex.ts.Bin(op, x, y)
+		fits := ex.ts.Eq(ex.ts.Sext(ex.ts.Extract(r, 63, 0), 64), r)
+		return ex.fromTerm(ex.ts.Not(fits))
+	case "vLabel":
+		ex.labels = append(ex.labels, ex.concreteString(args[0], "label"))
+		return nil
 	case "vSigInjective":
 		ex.sigInjective = true
 		return nil
@@ -215,6 +225,27 @@ func strLenOrNeg(v Value) int {
 
 func (ex *Exec) observe(tag string, v Value) {
 	var s string
+	if itf, ok := v.(Iface); ok {
+		v = itf.V
+		if itf.T == nil {
+			v = "<nil>"
+		} else if w, signed, isInt := intWidth(itf.T); isInt {
+			switch x := v.(type) {
+			case uint64:
+				if signed {
+					v = uint64(sext64(x, w))
+				}
+			case *Term:
+				if w < 64 {
+					if signed {
+						v = ex.ts.Sext(x, 64-w)
+					} else {
+						v = ex.ts.Zext(x, 64-w)
+					}
+				}
+			}
+		}
+	}
 	switch x := v.(type) {
 	case uint64:
 		s = fmt.Sprintf("%d", int64(x))
